@@ -147,6 +147,46 @@ pub fn contains_eq<S: Src>(s: &mut S, bits: u32, max_stride: u64) {
     cov!(s, !got && v > a.s && v < a.e, "non-member between the bounds reached");
 }
 
+/// Arbitrary well-formed interval of width `bits` with the given *concrete* stride (0 = singleton).
+pub fn any_iv_with_stride<S: Src>(s: &mut S, bits: u32, stride: u64) -> IV {
+    let st = sext(s.uw(bits), bits);
+    if stride == 0 {
+        return IV { s: st, e: st, stride: 0, bits };
+    }
+    let en = sext(s.uw(bits), bits);
+    s.assume(st < en);
+    s.assume(umod(en.wrapping_sub(st) as u64, stride, bits) == 0);
+    IV { s: st, e: en, stride, bits }
+}
+
+/// add (op 0) / sub (op 1) / signed_mul (op 2) for concrete stride pairs (sa, sb_min..=sb_max): with concrete strides the
+/// gcd computations inside the transfer functions are constants for the solver; starts, ends and both members are symbolic.
+pub fn arith_pairs<S: Src>(s: &mut S, bits: u32, op: u32, sa: u64, sb_min: u64, sb_max: u64) {
+    let mut sb = sb_min;
+    while sb <= sb_max {
+        let a = any_iv_with_stride(s, bits, sa);
+        let b = any_iv_with_stride(s, bits, sb);
+        let x = any_member(s, &a);
+        let y = any_member(s, &b);
+        note_iv(s, "A", &a);
+        note_iv(s, "B", &b);
+        s.note(&|| format!("x = {} y = {}", x, y));
+        let (ia, ib) = (to_interval(&a), to_interval(&b));
+        if op == 0 {
+            let r = ia.add(&ib);
+            result_ok!(s, r, bits, sext(x.wrapping_add(y) as u64, bits), "add");
+        } else if op == 1 {
+            let r = ia.sub(&ib);
+            result_ok!(s, r, bits, sext(x.wrapping_sub(y) as u64, bits), "sub");
+        } else {
+            let r = ia.signed_mul(&ib);
+            result_ok!(s, r, bits, sext(x.wrapping_mul(y) as u64, bits), "signed_mul");
+        }
+        sb += 1;
+    }
+    cov!(s, true, "all stride pairs executed");
+}
+
 /// add
 pub fn add<S: Src>(s: &mut S, bits: u32, max_stride: u64) {
     let a = any_iv(s, bits, max_stride);
@@ -329,14 +369,42 @@ pub fn adjust_rem<S: Src>(s: &mut S, bits: u32, max_stride: u64) {
 }
 
 crate::harnesses! {
-    // quick: proofs that finish in minutes; thorough: all strides <= 255 and `sub` (whose SAT proof needs a
-    // modular-arithmetic lemma CaDiCaL does not find within 15 min even for strides <= 3 — measured; the domain-layer
-    // result validation covers IntSub at all widths)
+    // quick: proofs that finish in minutes; thorough: all strides <= 255. `sub` with symbolic strides needs a
+    // modular-arithmetic lemma CaDiCaL does not find within 15 min even for strides <= 3 (measured; kept as a stretch
+    // harness); it is decided per concrete stride pair instead (below) and at all widths by the domain-layer result validation
     @quick c02_contains_8[4] => contains_eq(8, 255);
     c02_contains_64_s16[4] => contains_eq(64, 16);
     @quick c02_add_8_s15[4] => add(8, 15);
     @quick c02_mul_8_s3[4] => mul(8, 3);
-    c02_sub_8_s3[4] => sub(8, 3);
+    @stretch c02_sub_8_s3[4] => sub(8, 3);
+    // `sub` with concrete stride pairs (start, end, both members symbolic): the gcd of the strides is then a constant for
+    // the solver and the proof takes about a minute per pair; quick: four pairs, thorough: all 121 pairs 0..=10 x 0..=10
+    @quick c02_sub_pair_8_6_4[4] => arith_pairs(8, 1, 6, 4, 4);
+    @quick c02_sub_pair_8_5_3[4] => arith_pairs(8, 1, 5, 3, 3);
+    @quick c02_sub_pair_8_0_7[4] => arith_pairs(8, 1, 0, 7, 7);
+    @quick c02_sub_pair_8_8_12[4] => arith_pairs(8, 1, 8, 12, 12);
+    c02_sub_row_8_0_lo[8] => arith_pairs(8, 1, 0, 0, 5);
+    c02_sub_row_8_0_hi[8] => arith_pairs(8, 1, 0, 6, 10);
+    c02_sub_row_8_1_lo[8] => arith_pairs(8, 1, 1, 0, 5);
+    c02_sub_row_8_1_hi[8] => arith_pairs(8, 1, 1, 6, 10);
+    c02_sub_row_8_2_lo[8] => arith_pairs(8, 1, 2, 0, 5);
+    c02_sub_row_8_2_hi[8] => arith_pairs(8, 1, 2, 6, 10);
+    c02_sub_row_8_3_lo[8] => arith_pairs(8, 1, 3, 0, 5);
+    c02_sub_row_8_3_hi[8] => arith_pairs(8, 1, 3, 6, 10);
+    c02_sub_row_8_4_lo[8] => arith_pairs(8, 1, 4, 0, 5);
+    c02_sub_row_8_4_hi[8] => arith_pairs(8, 1, 4, 6, 10);
+    c02_sub_row_8_5_lo[8] => arith_pairs(8, 1, 5, 0, 5);
+    c02_sub_row_8_5_hi[8] => arith_pairs(8, 1, 5, 6, 10);
+    c02_sub_row_8_6_lo[8] => arith_pairs(8, 1, 6, 0, 5);
+    c02_sub_row_8_6_hi[8] => arith_pairs(8, 1, 6, 6, 10);
+    c02_sub_row_8_7_lo[8] => arith_pairs(8, 1, 7, 0, 5);
+    c02_sub_row_8_7_hi[8] => arith_pairs(8, 1, 7, 6, 10);
+    c02_sub_row_8_8_lo[8] => arith_pairs(8, 1, 8, 0, 5);
+    c02_sub_row_8_8_hi[8] => arith_pairs(8, 1, 8, 6, 10);
+    c02_sub_row_8_9_lo[8] => arith_pairs(8, 1, 9, 0, 5);
+    c02_sub_row_8_9_hi[8] => arith_pairs(8, 1, 9, 6, 10);
+    c02_sub_row_8_10_lo[8] => arith_pairs(8, 1, 10, 0, 5);
+    c02_sub_row_8_10_hi[8] => arith_pairs(8, 1, 10, 6, 10);
     c02_mul_8_s15[4] => mul(8, 15);
     c02_add_8[4] => add(8, 255);
     c02_mul_8[4] => mul(8, 255);
